@@ -130,6 +130,86 @@ func c13wireEngine(rep *core.Report, eng string) {
 		}
 	}
 	stops := append([]string{""}, hashes...)
+	// reference answer (same rule as storewalk's C13 oracle)
+	reference := func(l []string, st string) (int, []*core.MHeader) {
+		start := 0
+		for _, h := range l {
+			if m := model.ByHash[h]; m != nil && labels[h] == core.LLongest && int(m.Height) > start {
+				start = int(m.Height)
+			}
+		}
+		end := start + 2000
+		nothing := false
+		if m := model.ByHash[st]; m != nil && labels[st] == core.LLongest {
+			if int(m.Height) <= start {
+				nothing = true
+			} else if int(m.Height) < end {
+				end = int(m.Height)
+			}
+		}
+		if end > len(longest)-1 {
+			end = len(longest) - 1
+		}
+		var want []*core.MHeader
+		if !nothing {
+			for h := start + 1; h <= end; h++ {
+				want = append(want, longest[h])
+			}
+		}
+		return start, want
+	}
+	toHashes := func(l []string, st string) ([]chainhash.Hash, chainhash.Hash) {
+		var lh []chainhash.Hash
+		for _, h := range l {
+			lh = append(lh, ch(h))
+		}
+		stop := chainhash.Hash{}
+		if st != "" {
+			stop = ch(st)
+		}
+		return lh, stop
+	}
+	// pipelined pairs: two requests sent back to back, both answers must be right (an answer
+	// belongs to its request, also while it waits in the send queue)
+	single := [][]string{}
+	for _, x := range hashes {
+		single = append(single, []string{x})
+	}
+	for _, la := range single {
+		for _, lb := range single {
+			_, wa := reference(la, "")
+			_, wb := reference(lb, "")
+			if len(wa) == 0 || len(wb) == 0 {
+				continue
+			}
+			k, _ := n.Answer()
+			ha, sa := toHashes(la, "")
+			hb, sb := toHashes(lb, "")
+			n.Ask(ha, sa)
+			n.Ask(hb, sb)
+			synctest.Wait()
+			rep.Evaluations++
+			rep.Executions++
+			rep.Transitions += 2
+			got := n.AnswersSince(k)
+			ok := len(got) == 2
+			for gi, w := range [][]*core.MHeader{wa, wb} {
+				if !ok {
+					break
+				}
+				ok = len(got[gi]) == len(w)
+				for i := 0; ok && i < len(w); i++ {
+					ok = got[gi][i].BlockHash().String() == w[i].Hash
+				}
+			}
+			if !ok {
+				rep.Violate(core.Violation{Kind: "wire.getheaders.pipelined/" + eng, What: fmt.Sprintf("%s: two getheaders sent back to back (locators %v, %v): the two headers frames differ from the two reference answers", eng, shortL(model, la), shortL(model, lb)),
+					Replay: map[string]any{"engine": "netwalk", "property": "C13", "wire_engine": eng, "pipelined": []any{shortL(model, la), shortL(model, lb)}}, Expected: fmt.Sprintf("%d and %d headers", len(wa), len(wb)), Observed: fmt.Sprintf("%d frames", len(got))})
+			} else {
+				rep.Outcome("wire:" + eng + ":pipelined-ok")
+			}
+		}
+	}
 	for _, l := range locs {
 		for _, st := range stops {
 			var lh []chainhash.Hash
